@@ -160,5 +160,6 @@ func runSpec(t *testing.T, id string) {
 		t.Fatalf("no spec %s", id)
 	}
 	stats.Property = id
+	stats.Rule = spec.Rule
 	rapid.Check(t, func(rt *rapid.T) { RunHistory(rt, spec) })
 }
